@@ -182,3 +182,58 @@ func propC01(t *rapid.T) {
 	}
 	vt.Run(t, c01Rec, c, checkC01)
 }
+
+// TestC01Large: the reference transcription on feeds of 20000 and 70000 trips / stops / stop times, on one trip with 70000 stop
+// times followed by another, and on a feed with a 1 MiB cell. Every kind runs in every tier.
+func TestC01Large(t *testing.T) {
+	for _, kind := range []string{"inflated-20000", "inflated-70000", "long-trip-70000", "cell-1MiB"} {
+		kind := kind
+		t.Run(kind, func(outer *testing.T) {
+			fail := ""
+			defer func() {
+				if fail != "" {
+					outer.Fatalf("%s", fail)
+				}
+			}()
+			rapid.Check(outer, func(t *rapid.T) {
+				o := sgen.DefaultGenOpts()
+				o.ExplicitDefaults = true
+				o.MinTrips, o.MinStopTimes = 2, 2
+				f, _ := sgen.GenFeed(t, o)
+				switch kind {
+				case "inflated-20000":
+					f = sgen.InflateFeed(f, 80000) // trips = n/4
+				case "inflated-70000":
+					f = sgen.InflateFeed(f, 280000)
+				case "long-trip-70000":
+					f = sgen.InflateFeed(f, len(f.StopTimes)+70000)
+				case "cell-1MiB":
+					if len(f.Stops) > 0 {
+						f.Stops[len(f.Stops)/2].Desc = strings.Repeat("long description, with commas and \"quotes\" ", 25000)
+					}
+				}
+				c := CaseStatic{Feed: f, Pres: sgen.Canonical(), Inherit: rapid.Bool().Draw(t, "inherit")}
+				c.Env = genEnv(t)
+				c01Rec.Eval("large:" + kind)
+				for _, th := range []int{65536, 16384} {
+					if len(f.Trips) > th {
+						c01Rec.Class(fmt.Sprintf("large:reached:trips>%d", th))
+						break
+					}
+				}
+				for _, th := range []int{65536, 16384} {
+					if len(f.StopTimes) > th {
+						c01Rec.Class(fmt.Sprintf("large:reached:stop-times>%d", th))
+						break
+					}
+				}
+				c01Rec.NontrivialCase(vt.Fingerprint([]any{kind, len(f.Trips), len(f.Stops), len(f.StopTimes), c.Inherit}), func() any {
+					return map[string]any{"kind": kind, "trips": len(f.Trips), "stops": len(f.Stops), "stop_times": len(f.StopTimes)}
+				})
+				if msg := vt.Try(c01Rec, c, checkC01); msg != "" && fail == "" {
+					fail = msg
+				}
+			})
+		})
+	}
+}
